@@ -301,6 +301,11 @@ namespace awkward {
 
   const BuilderPtr
   TupleBuilder::begintuple(int64_t numfields) {
+    if (numfields < 0) {
+      throw std::invalid_argument(
+        std::string("'begin_tuple' needs a non-negative number of fields")
+        + FILENAME(__LINE__));
+    }
     if (length_ == -1) {
       for (int64_t i = 0;  i < numfields;  i++) {
         contents_.push_back(BuilderPtr(UnknownBuilder::fromempty(options_)));
